@@ -18,7 +18,7 @@ REPLAYS = os.environ.get("VERIF_REPLAYS", os.path.join(VERIF, "replays"))
 KNOWN = os.path.join(VERIF, "KNOWN_FINDINGS.txt")
 NCPU = os.cpu_count() or 4
 
-WRAP = "-Wl,--wrap=fopen64,--wrap=fclose,--wrap=read,--wrap=write,--wrap=writev,--wrap=lseek64,--wrap=_ZNSi4readEPcl"
+WRAP = "-Wl,--wrap=fopen64,--wrap=fclose,--wrap=read,--wrap=write,--wrap=writev,--wrap=lseek64,--wrap=ioctl,--wrap=_ZNSi4readEPcl,--wrap=_ZNSi8readsomeEPcl"
 VARIANTS = {
     "plain": ("g++", "-O1 -g -DSIM_ALLOC_SEAM"),
     "vg": ("g++", "-O1 -g -DSIM_VALGRIND"),
